@@ -45,7 +45,7 @@ def pScan {α γ} (g : γ → α → Except Err γ) (seed : γ) (reduce : Bool) 
       match g (s.getD seed) x with
       | .ok a => (some a, if reduce then [] else [.item a], false)
       | .error e => (s, [.fatal e], false),
-    fin := (scanOp g seed reduce term).fin }
+    fin := scanFin seed reduce term }
 
 /-- RxPY `ops.first()`: first item then completion; empty source → error -/
 def pFirst {α} : PlainOp α α :=
@@ -116,19 +116,21 @@ def compPlain {α β γ} (P1 : PlainOp α β) (P2 : PlainOp β γ) : PlainOp α 
 
 def idPlain {α} : PlainOp α α := { σ := Unit, init := (), next := fun _ x => ((), [.item x], false), fin := fun _ => [] }
 
+/-- the operator completed with this step, or signalled an error -/
+def stopsP {β} (r : List (LOut β) × Bool) : Bool :=
+  r.2 || r.1.any (fun o => match o with | .fatal _ => true | _ => false)
+
 /-- run a plain operator over the items of one sequence: per-item chunks and the completion chunk;
 nothing is emitted after completion or after an error -/
 def PlainOp.runP {α β} (P : PlainOp α β) : P.σ → List α → List (List (LOut β)) × List (LOut β)
   | s, [] => ([], P.fin s)
   | s, x :: xs =>
-    let r := P.next s x
-    if r.2.2 || r.2.1.any (fun o => match o with | .fatal _ => true | _ => false) then
-      (r.2.1 :: xs.map (fun _ => []), [])
-    else let r2 := P.runP r.1 xs; (r.2.1 :: r2.1, r2.2)
+    if stopsP (P.next s x).2 then ((P.next s x).2.1 :: xs.map (fun _ => []), [])
+    else ((P.next s x).2.1 :: (P.runP (P.next s x).1 xs).1, (P.runP (P.next s x).1 xs).2)
 
 /-- chunks: [subscription] ++ one per item, and the completion chunk -/
 def PlainOp.run {α β} (P : PlainOp α β) (xs : List α) : List (List (LOut β)) × List (LOut β) :=
-  if P.start.2 || P.start.1.any (fun o => match o with | .fatal _ => true | _ => false) then
+  if stopsP P.start then
     (P.start.1 :: xs.map (fun _ => []), [])
   else let r := P.runP P.init xs; (P.start.1 :: r.1, r.2)
 
